@@ -57,8 +57,12 @@ class MCMCOperator(Identifiable, abc.ABC):
     def _step(self) -> Tensor:
         pass
 
+    def _base_parameters(self) -> list[Parameter]:
+        # parameters that actually hold the values (e.g. x of a transformed parameter)
+        return [p for parameter in self.parameters for p in parameter.parameters()]
+
     def step(self) -> Tensor:
-        self.saved_tensors = [parameter.tensor.clone() for parameter in self.parameters]
+        self.saved_tensors = [p.tensor.clone() for p in self._base_parameters()]
         return self._step()
 
     def accept(self) -> None:
@@ -68,7 +72,9 @@ class MCMCOperator(Identifiable, abc.ABC):
             self._accept_window.popleft()
 
     def reject(self) -> None:
-        for parameter, saved_tensor in zip(self.parameters, self.saved_tensors):
+        for parameter, saved_tensor in zip(
+            self._base_parameters(), self.saved_tensors
+        ):
             parameter.tensor = saved_tensor
         self._reject += 1
         self._accept_window.append(0)
